@@ -145,3 +145,7 @@ def run(ck):
 
     C03.close_rules(ck, "3")
     C04.closed_rules(ck, "3")
+    # a drain loop that may run zero times never observes an empty queue: the source re-pings itself for ever
+    from props import common
+
+    common.import_results(ck, C02, "4", "Channel", "3")
